@@ -2274,6 +2274,10 @@ func (t *Table) SetCellShading(row, col int, config *ShadingConfig) error {
 		return err
 	}
 
+	if config == nil {
+		return fmt.Errorf("单元格背景配置不能为空")
+	}
+
 	if cell.Properties == nil {
 		cell.Properties = &TableCellProperties{}
 	}
